@@ -51,6 +51,8 @@ func c02Run(f []string) string {
 	switch f[0] {
 	case "pipe":
 		return pipeRun(f)
+	case "plan":
+		return c02PlanRun(f)
 	case "filt", "vis", "idx":
 		return c02FilterRun(f)
 	case "ctx":
@@ -246,6 +248,8 @@ func c02Gen(r *Rand, tier string) []string {
 	}
 	// default `rare filter` output through the real command, real matchers; color.StrLen
 	out = append(out, c02FilterGen(NewRand(r.U64()), tier)...)
+	// the matcher the flags select (helpers.BuildMatcherFromArguments)
+	out = append(out, c02PlanGen(NewRand(r.U64()), tier)...)
 	// the whole pipeline with late consumption (shared with C01)
 	np := 60
 	if tier == "thorough" {
